@@ -327,6 +327,8 @@ def check(ctx):
     for cfgname in ctx.configs(quick=('base',), thorough=('base', 'wire', 'nostd')):
         f = ctx.facts(cfgname)
         rep.cur_config = cfgname
+        from . import common as _cm
+        _cm.check_helpers(ctx, f, rep, 'C16-R0', {'choose_members', 'backlog'})
         r1_acceptance(ctx, f, rep)
         r2_receive_loop(ctx, f, rep)
         r3_gating(ctx, f, rep)
